@@ -153,9 +153,9 @@ func (self *VM) GetGlobals() map[string]value.Value {
 }
 
 func (self *VM) spawnCore() *Core {
-	defer vh("SpawnUnlock", -1, "")
 	self.Cores.Lock.Lock()
 	defer self.Cores.Lock.Unlock()
+	defer vh("SpawnUnlock", -1, "")
 	vh("SpawnLock", -1, "")
 
 	ch := make(chan *value.VmInterrupt)
@@ -446,9 +446,9 @@ func (self *VM) WaitNonConsuming() {
 // Removes the core with the given number from the core list.
 // The new list is computed while the write lock is held: cores which are spawned concurrently must not get lost.
 func (self *VM) removeCore(coreNum uint) {
-	defer vh("WaitNilUnlock", int64(coreNum), "")
 	self.Cores.Lock.Lock()
 	defer self.Cores.Lock.Unlock()
+	defer vh("WaitNilUnlock", int64(coreNum), "")
 	vh("WaitNilLock", int64(coreNum), "")
 
 	self.Cores.Cores = self.coresWithout(coreNum)
@@ -471,9 +471,9 @@ func (self *VM) coresWithout(coreNum uint) []Core {
 
 // Returns a snapshot of the core list.
 func (self *VM) coreSnapshot() []Core {
-	defer vh("WaitSnapUnlock", -1, "")
 	self.Cores.Lock.RLock()
 	defer self.Cores.Lock.RUnlock()
+	defer vh("WaitSnapUnlock", -1, "")
 	vh("WaitRLock", int64(len(self.Cores.Cores)), "")
 
 	return self.Cores.Cores
@@ -506,8 +506,8 @@ func (self *VM) Wait() (coreNum uint, i *value.VmInterrupt) {
 					(*self.CancelFunc)()
 					self.Cores.Cores = self.coresWithout(core.Corenum)
 					vh("WaitErrCancel", int64(core.Corenum), "")
-					self.Cores.Lock.Unlock()
 					vh("WaitErrUnlock", int64(core.Corenum), "")
+					self.Cores.Lock.Unlock()
 
 					// Every remaining core observes the cancelation and hands over its interrupt:
 					// receive all of them so that no core stays blocked on its signal handle forever.
